@@ -4,7 +4,7 @@ documented table.
 Exhaustive strings over an alphabet of letters, blanks, line breaks,
 punctuation and the special sequences; the oracle is the table of the
 property text applied by longest match; correspondence with the model."""
-import itertools, random
+import itertools, json, os, random
 import core, parsecase, universe
 from yalafi import parameters, parser, utils
 
@@ -59,8 +59,31 @@ def on_blank_line(s):
     return False
 
 
+def customisation_stream(res, prop='C06'):
+    """a call customised through modify_parms (every table of its Parameters
+    object changed in place) leaves the tables of later calls as documented"""
+    import subprocess
+    p = subprocess.run([core.PY, os.path.join(core.VERIF, 'harness', 'custom_worker.py')],
+                       stdout=subprocess.PIPE, stderr=subprocess.PIPE, env=core.repo_env(),
+                       timeout=600)
+    res.count('customised', ('customised',), nontrivial=True)
+    try:
+        d = json.loads(p.stdout.decode())
+    except Exception:
+        res.failures.append(('%s-custom' % prop.lower(), {'worker': 'custom_worker.py'},
+                             'worker failed: ' + p.stderr.decode('utf-8', 'replace')[-300:]))
+        return
+    if d['before'] != d['after']:
+        k = next(i for i, (a, b) in enumerate(zip(d['before'], d['after'])) if a != b)
+        res.failures.append(('%s-custom' % prop.lower(), {'worker': 'custom_worker.py', 'call': k},
+                             'after a call customised through modify_parms the default call %d '
+                             'returns %r, before it %r' % (k, str(d['after'][k])[:160],
+                                                           str(d['before'][k])[:160])))
+
+
 def run(tier, seed, build, res):
     rng = random.Random(seed)
+    customisation_stream(res)
     res.rule = ('all strings up to length L over %r (special sequences as '
                 'single symbols), minus those with a special sequence on an '
                 'otherwise blank line; plus random longer strings; non-trivial '
